@@ -35,6 +35,7 @@ TraceDivides(e, p, skip) == LET t == TraceSum(e, p, skip) d == Pow2(LogN(e) - sk
 
 Op(e) == e.op
 Fam(e) == IF Op(e) \in {"keyswitch", "keyswitch_assign"} THEN "ks"
+          ELSE IF Op(e) \in {"gglwe_ks", "gglwe_ks_assign"} THEN "gglwe"
           ELSE IF Op(e) \in {"trace", "trace_assign"} THEN "trace"
           ELSE IF Op(e) = "pack" THEN "pack"
           ELSE IF Op(e) \in {"lwe_keyswitch", "lwe_from_glwe", "glwe_from_lwe"} THEN "lwe"
@@ -87,7 +88,9 @@ Bound(e, res) ==
              per == CallBound(e, x, x) + 6 * (1 + N1(e)) + 2
          IN ToOutUlps(Min(Sat, nodes * per), Bits(x), ob) + TraceBound(e, x, res, LogN(e) - e.gap) + 1
     [] OTHER -> 0
-Meaningful(e, res) == Fam(e) \in {"extract", "lweenc"} \/ Bound(e, res) <= Pow2(OutBits(res)) \div 16
+Meaningful(e, res) ==
+  IF Fam(e) = "gglwe" THEN LET c == res.rows[1][1] IN PhaseBound([e EXCEPT !.a = e.a.rows[1][1]], c) <= Pow2(OutBits(c)) \div 16
+  ELSE Fam(e) \in {"extract", "lweenc"} \/ Bound(e, res) <= Pow2(OutBits(res)) \div 16
 
 \* ---- sample extraction is structural: body coefficient 0 and the first n mask coefficients, limb by limb
 ExtractOK(e, res) ==
@@ -114,7 +117,12 @@ LweEncDecOK(e, res) ==
       D == TorusInt(dec.d, dec.b, 1)
   IN /\ Within(ph, want, M, nb, inexact)
      /\ TorusShiftOK(D, CMod(ph, M), DK - K, DK, 1)
+\* GGLWE key-switch: the plain key-switch relation on every cell (rows beyond the result's are not produced)
+GglweKsOK(e, res) ==
+  /\ Len(res.rows) <= Len(e.a.rows)
+  /\ \A r \in 1..Len(res.rows) : \A c \in 1..Len(res.rows[r]) : PhaseOK([e EXCEPT !.a = e.a.rows[r][c]], res.rows[r][c])
 FamOK(e, res) ==
+  IF Fam(e) = "gglwe" THEN GglweKsOK(e, res) ELSE
   IF Fam(e) = "lweenc" THEN LweEncDecOK(e, res) ELSE
   IF Fam(e) = "extract" THEN ExtractOK(e, res)
   ELSE LET ob == OutBits(res)
